@@ -203,4 +203,151 @@ theorem finishRead_noData {f ff : Bytes} {ds : Option Ds64} {t : Table} {w : Lis
   unfold finishRead
   cases tlookup t idFmt <;> simp [h]
 
+/-! ### reading a file cut after the header part -/
+
+/-- The verdict on a truncated file is acceptable w.r.t. what the complete file holds (format, frame count,
+sample bytes, metadata chunks): rejected, or accepted with the same format, frame count and sample bytes and
+each metadata chunk either absent or identical. -/
+def TruncOK (fm : RFmt) (frames : Nat) (data : Bytes) (chna : Option (List ChnaEntry)) (axml bext : Option Bytes) :
+    Except Err (Parsed × List Warn) → Prop
+  | .error _ => True
+  | .ok (r, _) => r.fmt = fm ∧ r.frames = frames ∧ r.data = data ∧
+      (r.chna = none ∨ r.chna = chna) ∧ (r.axml = none ∨ r.axml = axml) ∧ (r.bext = none ∨ r.bext = bext)
+
+theorem noId_sub_left {id : Bytes} {A X : List Chunk} {c : Chunk} (h : NoId id (A ++ c :: X)) :
+    NoId id A ∧ c.id ≠ id :=
+  ⟨fun x hx => h x (by simp [hx]), h c (by simp)⟩
+
+theorem trunc_body {f pre ff : Bytes} {F : List Chunk} {fmt : Fmt} {c0 cF : Option (List ChnaEntry)}
+    {a0 b0 aF bF : Option Bytes} {sz : Nat} {data : Bytes} {ds : Option Ds64}
+    (hfmt : FmtOK fmt) (hc0 : ChnaOK c0) (hcF : ChnaOK cF)
+    (hf : f = pre ++ encAll (F ++ bodyC fmt c0 a0 b0 sz data (pad data.length) cF aF bF))
+    (hF : ∀ x ∈ F, x.id = idJUNK)
+    (hok : ∀ x ∈ F ++ bodyC fmt c0 a0 b0 sz data (pad data.length) cF aF bF, x.OK ds)
+    (hds : ∀ d, ds = some d → d.dataSize = data.length)
+    (hdata : data.length % fmt.blockAlign = 0)
+    (hpre : 1 ≤ pre.length) (k : Nat) (hk1 : pre.length ≤ k) (hk2 : k < f.length) :
+    TruncOK ⟨1, fmt.channels, fmt.rate, fmt.bits⟩ (data.length / fmt.blockAlign) data
+        (effChna c0 cF) (effMeta a0 aF) (effMeta b0 bF)
+      (match readChunks (f.take k) ds ((f.take k).length + 1) pre.length [] [] with
+       | .error e => .error e
+       | .ok (t, w) => finishRead (f.take k) ff ds t w) := by
+  -- the chunk sequence, split at the data chunk
+  have hsplit : F ++ bodyC fmt c0 a0 b0 sz data (pad data.length) cF aF bF =
+      (F ++ fmtC fmt :: preC c0 a0 b0) ++ dataC sz data (pad data.length) ::
+        lateC c0.isSome (truthy a0) (truthy b0) cF aF bF := by simp [bodyC]
+  have hnoH : NoId idData (F ++ fmtC fmt :: preC c0 a0 b0) := by simp only [preC]; no_id
+  have hnoL : NoId idData (lateC c0.isSome (truthy a0) (truthy b0) cF aF bF) := by simp only [lateC]; no_id
+  -- the truncated file
+  have hlenf : f.length = pre.length + (encAll (F ++ bodyC fmt c0 a0 b0 sz data (pad data.length) cF aF bF)).length := by
+    rw [hf]; simp
+  obtain ⟨A, c, B, j, hcs, hj, hm, htk⟩ :=
+    take_encAll (F ++ bodyC fmt c0 a0 b0 sz data (pad data.length) cF aF bF) (k - pre.length) (by omega)
+  have hfk : f.take k = pre ++ (encAll A ++ c.enc.take j) := by
+    rw [hf, List.take_append, List.take_of_length_le hk1, htk]
+  have hAok : ∀ x ∈ A, x.OK ds := fun x hx => hok x (by rw [hcs]; simp [hx])
+  have hcok : c.OK ds := hok c (by rw [hcs]; simp)
+  have hlk : (f.take k).length = k := by simp only [List.length_take]; omega
+  have hAl := length_le_encAll A (fun x hx => (hAok x hx).idLen)
+  rw [walk_prefix ds A c hAok hcok pre (f.take k) j hj hfk _ (by omega)]
+  rw [hsplit] at hcs
+  unfold prefixOutcome
+  by_cases h8 : j < 8
+  · -- cut inside the header of `c`: the complete chunks `A` are recorded
+    simp only [h8, ↓reduceIte]
+    rcases split_cases hcs.symm with ⟨X, hX⟩ | ⟨hAH, -, -⟩ | ⟨L, hAL, hLT⟩
+    · rw [hX] at hnoH
+      rw [finishRead_noData (by rw [tlookup_walkTable_absent _ _ (noId_sub_left hnoH).1]; rfl)]
+      trivial
+    · rw [hAH, finishRead_noData (by rw [tlookup_walkTable_absent _ _ hnoH]; rfl)]
+      trivial
+    · obtain ⟨c', a', b', hc', ha', hb', hL⟩ := prefix_lateC hLT.symm
+      have hc'ok : ChnaOK c' := by rcases hc' with rfl | rfl; exact hcF; trivial
+      have hA' : A = F ++ bodyC fmt c0 a0 b0 sz data (pad data.length) c' a' b' := by
+        rw [hAL, hL]; simp [bodyC]
+      rw [hA'] at hfk ⊢
+      rw [finishRead_written hfmt hc0 hc'ok hfk hF hds hdata]
+      exact ⟨rfl, rfl, rfl, effChna_sub c0 cF c' hc', effMeta_sub a0 aF a' ha', effMeta_sub b0 bF b' hb'⟩
+  · simp only [h8, ↓reduceIte]
+    by_cases hp : c.body.length % 2 = 1 ∧ c.id = idData ∧ j = 8 + c.body.length
+    · -- a data chunk that lacks only its pad byte
+      rw [if_pos hp]
+      rcases split_cases hcs.symm with ⟨X, hX⟩ | ⟨hAH, hcd, -⟩ | ⟨L, -, hLT⟩
+      · rw [hX] at hnoH
+        exact absurd hp.2.1 (noId_sub_left hnoH).2
+      · have hbody : c.body = data := by rw [hcd]; rfl
+        have hcid : c.id = idData := hp.2.1
+        have htake : c.enc.take j = (dataC sz data []).enc := by
+          rw [hp.2.2, hcd]
+          have e1 : idData ++ (le 4 sz ++ (data ++ pad data.length)) =
+              (idData ++ (le 4 sz ++ data)) ++ pad data.length := by simp
+          show List.take (8 + data.length) (idData ++ (le 4 sz ++ (data ++ pad data.length))) =
+            idData ++ (le 4 sz ++ (data ++ []))
+          rw [e1, List.take_left' (by simp [idData, le_length]; omega)]; simp
+        have hA' : A ++ [dataC sz data []] = F ++ bodyC fmt c0 a0 b0 sz data [] none none none := by
+          rw [hAH]
+          cases c0.isSome <;> cases truthy a0 <;> cases truthy b0 <;> simp [bodyC, lateC, optChnaC, optMetaC]
+        have hfk' : f.take k = pre ++ (encAll (F ++ bodyC fmt c0 a0 b0 sz data [] none none none) ++ []) := by
+          rw [hfk, htake, ← hA']; simp
+        have ht : ((c.id, c.body.length, pre.length + (encAll A).length) :: walkTable pre.length A [] : Table) =
+            walkTable pre.length (F ++ bodyC fmt c0 a0 b0 sz data [] none none none) [] := by
+          rw [← hA', walkTable_snoc, hcid, hbody]; rfl
+        rw [ht]
+        dsimp only
+        rw [finishRead_written (w := [Warn.dataPad]) hfmt hc0 (by trivial) hfk' hF hds hdata]
+        exact ⟨rfl, rfl, rfl, effChna_sub c0 cF none (Or.inr rfl), effMeta_sub a0 aF none (Or.inr rfl),
+          effMeta_sub b0 bF none (Or.inr rfl)⟩
+      · rw [hLT] at hnoL
+        exact absurd hp.2.1 (noId_sub_left hnoL).2
+    · rw [if_neg hp]
+      trivial
+
+/-! ### a file cut inside the header part -/
+
+theorem readRiff_short {f id s4 rest : Bytes} (hf : f = id ++ (s4 ++ (idWAVE ++ rest)))
+    (hid : id = idRIFF ∨ id = idBW64) (hs : s4.length = 4) {k : Nat} (hk : k < 12) :
+    readRiff (f.take k) = .error .struct := by
+  have hidl : id.length = 4 := by rcases hid with rfl | rfl <;> rfl
+  by_cases h8 : k < 8
+  · have := readAt_take_short f (p := 0) (n := 8) (by omega) (by omega)
+    simp [readRiff, this]
+  · have h8' : readAt (f.take k) 0 8 = id ++ s4 := by
+      rw [readAt_take_full f (by omega)]
+      exact readAt_mid (a := []) (b := id ++ s4) (r := idWAVE ++ rest) (by simp [hf]) rfl (by simp [hidl, hs])
+    have ht : (id ++ s4).take 4 = id := by rw [← hidl]; simp
+    have h4 := readAt_take_short f (k := k) (p := 8) (n := 4) (by omega) (by omega)
+    simp only [readRiff, h8', ht]
+    rcases hid with rfl | rfl <;> simp [hs, h4, idRIFF, idRF64, idBW64]
+
+theorem readHead_riff_short {f s4 rest : Bytes} (hf : f = idRIFF ++ (s4 ++ (idWAVE ++ rest))) (hs : s4.length = 4)
+    {k : Nat} (hk : k < 12) : readHead (f.take k) = .error .struct := by
+  simp only [readHead, readRiff_short hf (Or.inl rfl) hs hk]
+
+theorem readHead_bw64_short {f rest : Bytes} {R n : Nat}
+    (hf : f = idBW64 ++ (ffff ++ (idWAVE ++ (ds64Chunk R n ++ rest)))) {k : Nat} (hk : k < 48) :
+    readHead (f.take k) = .error .struct := by
+  by_cases h12 : k < 12
+  · simp only [readHead, readRiff_short hf (Or.inr rfl) rfl h12]
+  · have hfk : f.take k = idBW64 ++ (ffff ++ (idWAVE ++ (ds64Chunk R n ++ rest).take (k - 12))) := by
+      have : f = (idBW64 ++ (ffff ++ idWAVE)) ++ (ds64Chunk R n ++ rest) := by simp [hf]
+      rw [this, List.take_append, List.take_of_length_le (by simp [idBW64, ffff, idWAVE]; omega)]
+      simp [idBW64, ffff, idWAVE]
+    have hds : readDs64 (f.take k) = .error .struct := by
+      by_cases h20 : k < 20
+      · have := readAt_take_short f (k := k) (p := 12) (n := 8) (by omega) (by omega)
+        simp [readDs64, this]
+      · have h8 : readAt (f.take k) 12 8 = idDs64 ++ le 4 28 := by
+          rw [readAt_take_full f (by omega)]
+          exact readAt_mid (a := idBW64 ++ (ffff ++ idWAVE)) (b := idDs64 ++ le 4 28)
+            (r := (le 8 R ++ le 8 n ++ le 8 0 ++ le 4 0) ++ rest) (by simp [hf, ds64Chunk]) rfl rfl
+        have hd4 : (idDs64 ++ le 4 28).take 4 = idDs64 := by decide
+        have hd5 : fromLE ((idDs64 ++ le 4 28).drop 4) = 28 := by decide
+        have hshort := readAt_take_short f (k := k) (p := 20) (n := 28) (by omega) (by omega)
+        have hle : (readAt (f.take k) 20 28).length ≤ 28 := by simp only [readAt, List.length_take]; omega
+        have hfix : ¬ (min 28 (readAt (f.take k) 20 28).length = 28) := by omega
+        simp only [readDs64, h8, hd4, hd5]
+        simp [hfix, idDs64]
+    simp only [readHead, readRiff_ok hfk (Or.inr rfl) rfl, hds]
+    simp [idRF64, idBW64]
+
 end Earverif.Bw64
